@@ -20,7 +20,7 @@
 (*   schemas of depth <= 2 (Deep: 3).                                      *)
 (* Mode "bind": the abstraction tables, for the harness' start-up checks.  *)
 (***************************************************************************)
-EXTENDS SchemaDecl, Export
+EXTENDS ErrPath, Export
 \* TLC orders record fields by FIRST OCCURRENCE of the name in the root module (not
 \* alphabetically) and compares / tests equality of records field by field in that order.  Tag
 \* fields must therefore be met before payload fields of different types: this definition is the
@@ -214,7 +214,9 @@ C04ObjLeafs ==
                                          <<"b", ObjectS("B", <<Prop("b", StringS(None, None, None), FALSE)>>, "map", FALSE)>> >>),
       OneOfS("int", "type", TRUE, << <<1, ObjectS("A", <<Prop("a", IntS(Some(1), Some(2), None), TRUE), Prop("type", IntS(None, None, None), TRUE)>>, "map", FALSE)>> >>),
       OneOfS("string", "type", FALSE, << <<"a", ObjectS("A", <<Prop("a", IntS(Some(1), Some(2), None), TRUE)>>, "sub", FALSE)>> >>),
-      ScopeS("R", << ObjectS("R", << Prop("a", IntS(Some(1), Some(2), None), TRUE), Prop("n", RefS("R"), FALSE) >>, "map", FALSE) >>) }
+      ScopeS("R", << ObjectS("R", << Prop("a", IntS(Some(1), Some(2), None), TRUE), Prop("n", RefS("R"), FALSE) >>, "map", FALSE) >>),
+      ScopeS("A", << ObjectS("A", << Prop("n", RefS("A"), FALSE) >>, "map", FALSE) >>),
+      ScopeS("A", << ObjectS("A", << Prop("n", RefS("B"), FALSE) >>, "map", FALSE), ObjectS("B", << Prop("n", RefS("A"), TRUE) >>, "map", FALSE) >>) }
 C04Leafs ==
     { IntS(Some(1), Some(2), None), IntS(None, None, Some("sec")), FloatS(Some(2), Some(4), None),
       StringS(Some(1), Some(2), Some("lower")), BoolS, PatternS, EnumIntS(<<1, 2>>, None),
@@ -395,6 +397,11 @@ OneOfStruct ==
     { OneOfS(disc, "type", FALSE,
              << <<IF disc = "int" THEN 1 ELSE "a", ObjectS("A", <<Prop("a", TA, TRUE)>>, "sub", FALSE)>>,
                 <<IF disc = "int" THEN 2 ELSE "b", ObjectS("B", <<Prop("B", TB, TRUE)>>, "notag", FALSE)>> >>) : disc \in {"string", "int"} }
+OneOfAny == OneOfS("string", "type", FALSE, << <<"a", ObjectS("A", << Prop("x", AnyS, FALSE), Prop("a", TA, FALSE) >>, "map", FALSE)>> >>)
+OneOfAnyArgs ==
+    { M("string_any", << <<Str("type"), Str("a")>>, <<Str("x"), x>> >>) :
+        x \in { L("any", <<I64(1), Str("a")>>), L("any", <<I64(1), I64(2)>>), I64(1), M("any_any", << <<I64(1), I64(1)>>, <<Str("a"), I64(1)>> >>),
+                L("any", << L("any", <<>>), M("any_any", <<>>) >>) } }
 DiscRaws == { Str("a"), Str("b"), Str("1"), Str("2"), Str("c"), I64(1), I("uint64", 1), I64(2), I64(9), F64(2), B(TRUE), Nil, S("named", "a") }
 Bodies == { <<>>, << <<Str("a"), I64(1)>> >>, << <<Str("a"), I64(3)>> >>, << <<Str("b"), Str("a")>> >>, << <<Str("c"), B(TRUE)>> >>,
             << <<Str("a"), I64(1)>>, <<Str("x"), I64(1)>> >> }
@@ -415,8 +422,12 @@ OneOfNatArgs ==
 \* references: a self-referential object, a reference to a sibling object, a one-of over references
 SelfScope(layout) ==
     ScopeS("R", << ObjectS("R", << Prop("a", TA, TRUE), Prop(IF layout = "map" THEN "n" ELSE "sp", RefS("R"), FALSE) >>, layout, FALSE) >>)
+\* a single-property object whose only property refers to the object itself: the inline shorthand hands a
+\* non-map value to the property - the same object - for ever (reported by an independent reader)
+LoopScope == ScopeS("A", << ObjectS("A", << Prop("n", RefS("A"), FALSE) >>, "map", FALSE) >>)
+LoopScope2 == ScopeS("A", << ObjectS("A", << Prop("n", RefS("B"), FALSE) >>, "map", FALSE), ObjectS("B", << Prop("n", RefS("A"), TRUE) >>, "map", FALSE) >>)
 RefScopes ==
-    { SelfScope("map") }
+    { SelfScope("map"), LoopScope, LoopScope2 }
     \cup { ScopeS("R", << ObjectS("R", << Prop("a", TA, TRUE), Prop("n", RefS("N"), FALSE) >>, "map", FALSE),
                           ObjectS("N", << PropS("b", TB, FALSE, <<>>, <<>>, <<>>, Some(DefB), FALSE, FALSE) >>, "map", FALSE) >>),
            ScopeS("R", << ObjectS("R", << Prop("u", OneOfS("string", "type", FALSE, << <<"a", RefS("A")>>, <<"b", RefS("R")>> >>), FALSE) >>, "map", FALSE),
@@ -433,7 +444,11 @@ RefRawArgs ==
               M("any_any", << <<Str("u"), M("any_any", << <<Str("type"), Str("b")>>,
                                 <<Str("u"), M("any_any", << <<Str("type"), Str("a")>>, <<Str("a"), I64(3)>> >>)>> >>)>> >>),
               M("any_any", << <<Str("l"), L("any", << M("any_any", << <<Str("a"), I64(1)>> >>), M("any_any", << <<Str("a"), I64(3)>> >>) >>)>> >>),
-              M("any_any", << <<Str("l"), L("any", << M("any_any", << <<Str("a"), I64(1)>> >>) >>)>> >>) }
+              M("any_any", << <<Str("l"), L("any", << M("any_any", << <<Str("a"), I64(1)>> >>) >>)>> >>),
+              \* non-map values at the root and nested (the shorthand loop), and proper nesting of the loop scopes
+              Str("a"), Nil, L("any", <<I64(1)>>), B(TRUE), M("any_any", << <<Str("n"), I64(1)>> >>), M("any_any", << <<Str("n"), L("any", <<>>)>> >>),
+              M("any_any", << <<Str("n"), M("any_any", <<>>)>> >>), M("any_any", << <<Str("n"), M("any_any", << <<Str("n"), M("any_any", <<>>)>> >>)>> >>),
+              M("any_any", << <<Str("n"), M("any_any", << <<Str("n"), Str("a")>> >>)>> >>) }
 
 \* ------------------------------------------------------------------ bind tables
 WireSamples ==
@@ -496,6 +511,7 @@ InitC03 ==
           \/ \E x \in OneOfRawArgs : \E op \in {"unser", "compat"} : vec = Vec(s, op, x)
           \/ \E x \in OneOfNatArgs : \E op \in {"valid", "ser"} : vec = Vec(s, op, x)
     \/ \E s \in RefScopes : \E x \in RefRawArgs : \E op \in {"unser", "compat"} : vec = Vec(s, op, x)
+    \/ \E x \in OneOfAnyArgs : \E op \in {"unser", "valid", "ser", "compat"} : vec = Vec(OneOfAny, op, x)
 
 \* ------------------------------------------------------------------ C01: chained round trip
 \* one vector per (schema, accepted raw value): Unserialize -> Validate -> Serialize -> (real CBOR) ->
@@ -516,6 +532,7 @@ C01Scalars ==
 C01Containers ==
     {ListS(i, bt[1], bt[2], t) : i \in ItemSchemas \cup {ListS(TA, None, None, FALSE), MapS(StringS(None, None, None), TA, None, None, FALSE)},
                                bt \in { <<None, None>>, <<Some(1), Some(2)>> }, t \in BOOLEAN}
+    \cup {MapS(k, IntS(None, None, None), Some(2), Some(2), FALSE) : k \in KeySchemas}
     \cup {MapS(k, w, None, Some(2), t) : k \in KeySchemas, w \in ValSchemas \cup {ListS(TA, None, None, FALSE), FloatS(None, None, None)}, t \in BOOLEAN}
 C01ContainerRaw(s) ==
     IF s.kind = "list"
@@ -539,6 +556,19 @@ InitC01 ==
     \/ \E s \in EidObjs : \E x \in ObjRawArgs(s) : Accepting(s, x) /\ vec = VecChain(s, x)
     \/ \E s \in OneOfs \cup OneOfStruct : \E x \in OneOfRawArgs : Accepting(s, x) /\ vec = VecChain(s, x)
     \/ \E s \in RefScopes : \E x \in RefRawArgs : Accepting(s, x) /\ vec = VecChain(s, x)
+    \/ \E x \in OneOfAnyArgs : Accepting(OneOfAny, x) /\ vec = VecChain(OneOfAny, x)
+
+\* ------------------------------------------------------------------ C17: error paths
+BaseOp(op) == IF op = "path_unser" THEN "unser" ELSE "valid"
+VecPath(c, op) ==
+    LET arg == IF op = "path_unser" THEN c.bad ELSE c.nbad.v
+        good == IF op = "path_unser" THEN c.good ELSE c.ngood
+    IN [fam |-> "schema", s |-> c.s, op |-> op, arg |-> arg, good |-> good, exp |-> Declared(c.s, BaseOp(op), arg),
+        mod |-> Outcome(c.s, BaseOp(op), arg), goodok |-> Outcome(c.s, BaseOp(op), good).ok, sub |-> <<>>,
+        path |-> ExpectedPath(c), fault |-> c.fault, key |-> c.key]
+InitC17 ==
+    \E c \in Cases(IF Deep THEN 3 ELSE 2) : \E op \in {"path_unser", "path_valid"} :
+        (op = "path_valid" => c.nbad.some) /\ vec = VecPath(c, op)
 
 InitBind ==
     \/ vec = [fam |-> "bind", what |-> "strings", toks |-> TokSeq, dec |-> DecSeq, ftok |-> FSeq,
@@ -550,6 +580,7 @@ Init ==
       [] Mode = "c04" -> InitC04
       [] Mode = "c03" -> InitC03
       [] Mode = "c01" -> InitC01
+      [] Mode = "c17" -> InitC17
       [] Mode = "bind" -> InitBind
 Next == UNCHANGED vec
 Spec == Init /\ [][Next]_vec
@@ -573,6 +604,8 @@ TotalOK == IsVec => /\ vec.mod.ok \in {"yes", "no", "maybe"} /\ vec.exp.ok \in {
                     /\ WF(vec.s) /\ WFV(vec.arg)
 \* C01 on the model: SchemaDecl!RoundTrip
 RoundTripOK == (IsVec /\ vec.op = "chain") => RoundTrip(vec.s, vec.arg) /\ Refines(vec.mod, vec.exp)
-ModelOK == ExactOK /\ SamePathsOK /\ TotalOK /\ RoundTripOK
+\* C17 on the model (ErrPath!SingleFaultRejected): the valid input is accepted, the single fault rejected
+SingleFaultOK == (IsVec /\ vec.op \in {"path_unser", "path_valid"}) => vec.goodok = "yes" /\ vec.mod.ok = "no"
+ModelOK == ExactOK /\ SamePathsOK /\ TotalOK /\ RoundTripOK /\ SingleFaultOK
 Export == Emit(vec)
 =============================================================================
